@@ -1372,23 +1372,34 @@ def _g_cum(g, ins):
     p = {"fn": fn, "axis": axis}
     if g.rng.random() < 0.4:
         p["method"] = "blelloch"
+    if fn != "cumprod" and g.rng.random() < 0.25:
+        # an explicit (narrowing or kind-changing) accumulator dtype: every block must come out in it
+        p["dtype"] = g.rng.choice(["f4", "f8"] if a.kind == "f" else ["i4", "f8", "i8"])
+        need(a.mag <= 2**20)
     return p
 
 
 def _cum_da(p, a):
     kw = {"method": p["method"]} if "method" in p else {}
+    if p.get("dtype"):
+        kw["dtype"] = p["dtype"]
     return getattr(da(), p["fn"])(a, axis=p["axis"], **kw)
+
+
+def _cum_np(p, a):
+    kw = {"dtype": p["dtype"]} if p.get("dtype") else {}
+    return getattr(np, p["fn"])(a, axis=p["axis"], **kw)
 
 
 defop(
     "cumulative",
     1,
     _g_cum,
-    lambda p, a: getattr(np, p["fn"])(a, axis=p["axis"]),
+    _cum_np,
     _cum_da,
     "reduction scan",
     w=3,
-    inexact=lambda p, ins, out: 0 if (ins[0].kind in "iu" or (p["fn"] != "cumprod" and dyadic(ins[0].np))) else 1,
+    inexact=lambda p, ins, out: 0 if ((ins[0].kind in "iu" and p.get("dtype") not in ("f4",)) or (p["fn"] != "cumprod" and dyadic(ins[0].np) and p.get("dtype") != "f4")) else 1,
 )
 
 
@@ -1503,6 +1514,58 @@ def _map_overlap_da(p, a):
 
 
 defop("map_overlap", 1, _g_map_overlap, _map_overlap_np, _map_overlap_da, "window overlap", w=2)
+
+# ---- directed shapes for fusion-conflict detection and shuffle pushdown --------------------------
+
+
+def _g_tsib(g, ins):
+    (a,) = ins
+    need(a.ndim >= 3 and a.kind in "fi" and a.np.size > 0)
+    nd = a.ndim
+    q = list(range(nd))
+    pp = list(range(nd))
+    g.rng.shuffle(q)
+    g.rng.shuffle(pp)
+    return {"q": q, "p": pp, "fn": g.rng.choice(["k_add_one", "k_double"])}
+
+
+def _tsib_np(p, a):
+    q, pp = p["q"], p["p"]
+    r = [q[i] for i in pp]
+    s = -a
+    return K.KERNELS[p["fn"]](np.transpose(s, q)).transpose(pp) + np.transpose(s, r)
+
+
+def _tsib_dask(p, a):
+    q, pp = p["q"], p["p"]
+    r = [q[i] for i in pp]
+    shared = da().map_blocks(K.k_neg, a, dtype=a.dtype)
+    b1 = da().map_blocks(K.KERNELS[p["fn"]], da().transpose(shared, q), dtype=a.dtype).transpose(pp)
+    return b1 + da().transpose(shared, r)
+
+
+defop("transposed_siblings", 1, _g_tsib, _tsib_np, _tsib_dask, "move blockwise map_blocks", w=0.8)
+
+
+def _g_expand_take(g, ins):
+    (a,) = ins
+    need(a.ndim >= 1 and a.ndim <= 2 and a.np.size > 0)
+    k = g.rng.randint(2, 3)
+    ax = g.rng.randrange(a.ndim)
+    n = a.shape[ax]
+    ind = [g.rng.randrange(-n, n) for _ in range(g.rng.randint(1, 6))]
+    if g.rng.random() < 0.5:
+        ind = list(g.rng.sample(range(n), n))  # a permutation keeps shape and dtype: only the values can tell
+    return {"k": k, "axis": ax, "ind": ind}
+
+
+def _expand_take(mod, p, a):
+    y = a[(None,) * p["k"]]
+    return mod.take(y, p["ind"], axis=p["k"] + p["axis"])
+
+
+defop("expand_take", 1, _g_expand_take, lambda p, a: _expand_take(np, p, a), lambda p, a: _expand_take(da(), p, a), "index shuffle move", w=0.8)
+
 
 # ---- bottleneck moving-window reductions (xarray's rolling path) ------------------------------
 
